@@ -5,8 +5,7 @@ constructor establishes the view it is given; every operation's postcondition is
 WHOLE view (`& | ^ !`, set, the assign forms); any/all/bitmask/test/==/Hash/Into<[u32;N]> are
 functions of the view only (BVec3A is built with a symbolic hidden lane; two masks with equal views
 but different hidden lanes are indistinguishable, including through a recording Hasher).
-cmp* on the integer vector types and select on all vector types are lane-wise (the float cmp* are
-contracts of C01).  Index out of range: always-panics obligations."""
+cmp* on every vector type (float: all bit patterns incl. NaN and +-0) and select on all vector types are lane-wise.  Index out of range: always-panics obligations."""
 import os, re
 import core
 from core import Ob
@@ -98,15 +97,15 @@ def build(config, tier):
         obs.append(Ob("c15_%s_%s_vs_%s" % (config, A.lower(), P.lower()), PROP, body, fn="%s vs %s" % (A, P), kind="lemma", solver="cadical", stubs=["sse"], cls="bits",
                       desc="%s and %s built from the same bools agree on every observer" % (A, P)))
     # cmp* on integer vectors, select on all vectors
-    if config == "sse2":
-        for T in INT_VECS:
+    for T in ([v for v in ALL_VECS if v.is_float and (config == "sse2" or v.simd)] + (INT_VECS if config == "sse2" else [])):
+        if True:
             N, n, t = T.name, T.n, T.t
             conds = []
             for m, sym in CMP.items():
                 conds.append("(v.%s(u).bitmask() == __verif::bm%d([%s]))" % (m, n, ", ".join("v.to_array()[%d] %s u.to_array()[%d]" % (i, sym, i) for i in range(n))))
             body = "let v = mk::<%s>(); let u = mk::<%s>();\n    let ok = %s;\n    check!(ok, \"six comparisons of %s\");" % (N, N, "\n        && ".join(conds), N)
-            obs.append(Ob("c15_sse2_%s_cmp" % N.lower(), PROP, body, fn="%s::cmp*" % N, kind="bundle", solver="cadical", stubs=[], clauses=6, cls="lane",
-                          tier="quick" if t in ("i32", "u8", "u64") else "thorough", desc="%s cmpeq/ne/lt/le/gt/ge: mask lane i == primitive comparison of lane i" % N))
+            obs.append(Ob("c15_%s_%s_cmp" % (config, N.lower()), PROP, body, fn="%s::cmp*" % N, kind="bundle", solver="cadical", stubs=(["sse"] if T.is_float else []), clauses=6, cls="lane",
+                          tier="quick", desc="%s cmpeq/ne/lt/le/gt/ge: mask lane i == primitive comparison of lane i" % N))
     for T in ALL_VECS:
         if config != "sse2" and not T.simd:
             continue
@@ -131,7 +130,7 @@ def run(s):
     for cfg in ("sse2", "scalar"):
         s.run_config(cfg, [], build(cfg, s.tier), extra_rust=HASHER)
     s.assumptions += [
-        "float cmp* masks are contracts of C01 (bitmask == lane-wise primitive comparison), not repeated here",
+        "float cmp* masks: bitmask == lane-wise primitive comparison for all operand bit patterns (NaN, +-0 included), sse2 and scalar builds (also woven contracts of C01)",
         "Debug/Display of masks is not decided (core::fmt)",
         "BVec3A hidden lane: both values a comparison can leave there (all-ones / zero) are symbolic",
     ]
